@@ -4,7 +4,7 @@ import Driver.Proto
 /-
 Streams of C08.
   c08.seq  op1 op2 …     L:<kind> | V:<kind> | X      (kinds: harness/streams/c08.go)
-     out = step|step|…   step = <res>;ls=<l1>.<l2>;hk=<hooks>;s1=<probe>;s2=<probe>
+     out = step|step|…   step = <res>;ls=<l1>.<l2>;hk=<hooks>;dv=<0|1>;s1=<probe>;s2=<probe>
   Port 3 is held by a foreign listener in every case.
 -/
 namespace Driver.C08
@@ -12,22 +12,34 @@ open Casket.Load
 
 def busy : List Nat := [3]
 
-def kindCfg : String → Option Cfg
-  | "A1" => some ⟨[⟨1, "A"⟩], 0, .none⟩
-  | "B12" => some ⟨[⟨1, "B"⟩, ⟨2, "B"⟩], 0, .none⟩
-  | "C2" => some ⟨[⟨2, "C"⟩], 0, .none⟩
-  | "H1" => some ⟨[⟨1, "H"⟩], 1, .none⟩
-  | "HH12" => some ⟨[⟨1, "H"⟩, ⟨2, "H"⟩], 2, .none⟩
-  | "syn" => some ⟨[⟨1, "A"⟩], 0, .parse⟩
-  | "unk" => some ⟨[⟨1, "A"⟩], 0, .parse⟩
-  | "imp" => some ⟨[⟨1, "A"⟩], 0, .parse⟩
-  | "argE" => some ⟨[⟨1, "H"⟩], 1, .setupEarly⟩
-  | "tlsM" => some ⟨[⟨1, "A"⟩], 1, .setupEarly⟩
-  | "argL" => some ⟨[⟨1, "H"⟩], 1, .setupLate⟩
-  | "logE" => some ⟨[⟨1, "H"⟩], 1, .startup⟩
-  | "busy3" => some ⟨[⟨3, "A"⟩], 0, .none⟩
-  | "leak13" => some ⟨[⟨1, "A"⟩, ⟨3, "A"⟩], 1, .none⟩
-  | "leak123" => some ⟨[⟨1, "B"⟩, ⟨2, "B"⟩, ⟨3, "B"⟩], 0, .none⟩
+/-- what the probe battery returns for a plain static site / for the order-sensitive site, in a fresh process -/
+def plain (m : String) : String := m ++ "/404.404.404.404.404.id"
+def ordered : String := "O/401.401.401.401.418.gz"
+
+/-- a mistyped directive: the parser rejects the file; nothing has run -/
+def typos : List String := ["proxi", "basicaut", "rewrit", "gzi", "loggg", "tlss", "redri", "zzz"]
+
+def kindCfg (k : String) : Option Cfg :=
+  if k.startsWith "ty-" then
+    if typos.contains (k.drop 3).toString then some ⟨[⟨1, plain "A"⟩], 0, .parse⟩ else none
+  else match k with
+  | "A1" => some ⟨[⟨1, plain "A"⟩], 0, .none⟩
+  | "B12" => some ⟨[⟨1, plain "B"⟩, ⟨2, plain "B"⟩], 0, .none⟩
+  | "C2" => some ⟨[⟨2, plain "C"⟩], 0, .none⟩
+  | "H1" => some ⟨[⟨1, plain "H"⟩], 1, .none⟩
+  | "HH12" => some ⟨[⟨1, plain "H"⟩, ⟨2, plain "H"⟩], 2, .none⟩
+  | "O1" => some ⟨[⟨1, ordered⟩], 0, .none⟩
+  | "OB12" => some ⟨[⟨1, ordered⟩, ⟨2, plain "B"⟩], 0, .none⟩
+  | "syn" => some ⟨[⟨1, plain "A"⟩], 0, .parse⟩
+  | "unk" => some ⟨[⟨1, plain "A"⟩], 0, .parse⟩
+  | "imp" => some ⟨[⟨1, plain "A"⟩], 0, .parse⟩
+  | "argE" => some ⟨[⟨1, plain "H"⟩], 1, .setupEarly⟩
+  | "tlsM" => some ⟨[⟨1, plain "A"⟩], 1, .setupEarly⟩
+  | "argL" => some ⟨[⟨1, plain "H"⟩], 1, .setupLate⟩
+  | "logE" => some ⟨[⟨1, plain "H"⟩], 1, .startup⟩
+  | "busy3" => some ⟨[⟨3, plain "A"⟩], 0, .none⟩
+  | "leak13" => some ⟨[⟨1, plain "A"⟩, ⟨3, plain "A"⟩], 1, .none⟩
+  | "leak123" => some ⟨[⟨1, plain "B"⟩, ⟨2, plain "B"⟩, ⟨3, plain "B"⟩], 0, .none⟩
   | _ => none
 
 def parseOp (s : String) : Option Op :=
@@ -40,7 +52,7 @@ def showRes : Res → String
   | .ok => "ok" | .err => "err"
 
 def showStep (x : Res × Obs) : String :=
-  s!"{showRes x.1};ls={x.2.l1}.{x.2.l2};hk={x.2.hooks};s1={x.2.s1};s2={x.2.s2}"
+  s!"{showRes x.1};ls={x.2.l1}.{x.2.l2};hk={x.2.hooks};dv={x.2.dv};s1={x.2.s1};s2={x.2.s2}"
 
 def seqModel (f : List String) : String :=
   match f.mapM parseOp with
@@ -56,14 +68,15 @@ def stripPrefix (p s : String) : Option String :=
 
 def parseStep (s : String) : Option (Option Res × Obs) :=
   match s.splitOn ";" with
-  | [r, ls, hk, s1, s2] => do
+  | [r, ls, hk, dv, s1, s2] => do
     let r ← parseRes r
     let ls ← stripPrefix "ls=" ls
     let hk ← (← stripPrefix "hk=" hk).toNat?
+    let dv ← (← stripPrefix "dv=" dv).toNat?
     let s1 ← stripPrefix "s1=" s1
     let s2 ← stripPrefix "s2=" s2
     match ls.splitOn "." with
-    | [a, b] => pure (r, { l1 := ← a.toNat?, l2 := ← b.toNat?, hooks := hk, s1 := s1, s2 := s2 })
+    | [a, b] => pure (r, { l1 := ← a.toNat?, l2 := ← b.toNat?, hooks := hk, dv := dv, s1 := s1, s2 := s2 })
     | _ => none
   | _ => none
 
